@@ -56,6 +56,7 @@ type FeederActor struct {
 	planStatus map[string]feedstypes.SignalPriceStatus
 	planLeft   int
 	Bystander  *world.Account // an account no model tracks; may delegate to validators to set up exact power splits
+	PushOver   int            // index+1 semantics are avoided: -1 = none; else the validator the bystander pushes past 2^63 tokens at step 8
 	forcePlan  bool
 	hold       map[string]int
 	jumpNext   map[string]bool
@@ -374,6 +375,12 @@ func (a *FeederActor) Act(e *Env) {
 		e.St.Probe("steps_with_current_feeds")
 	} else {
 		e.St.Probe("steps_without_current_feeds")
+	}
+	if a.PushOver >= 0 && a.Bystander != nil && e.Step == 8 && a.PushOver < len(e.W.Vals) {
+		v := e.W.Vals[a.PushOver]
+		amt := int64(1_000_001 + e.Ch.Intn("feeder.pushover", 3)*1_000_000)
+		e.Submit(a.Bystander, "balance_delegate", nil, stakingtypes.NewMsgDelegate(a.Bystander.Addr.String(), v.Val.String(), sdk.NewInt64Coin("uband", amt)))
+		e.St.Probe("validator_tokens_pushed_past_2^63")
 	}
 	a.stepMarket(e, cf.Feeds)
 	a.stepStatusPlan(e, cf.Feeds)
